@@ -34,11 +34,13 @@ def _run_job(args):
     t0 = time.time()
     try:
         scen = mod.scenario(job)
+        forced = job.get("_forced")
         ex = Explorer(
             scen,
             max_paths=limits.get("max_paths"),
             max_seconds=limits.get("max_seconds"),
             validate=limits.get("validate", "all"),
+            forced=(tuple(forced), limits["split_depth"]) if forced is not None else None,
         ).run()
     except Exception as e:  # noqa
         import traceback
@@ -74,6 +76,17 @@ def _run_job(args):
             "validated": st.validated,
         },
     }
+
+
+def _probe_job(args):
+    """Enumerate the feasible prefixes of the first split_depth symbolic choices of a job."""
+    modname, job, limits = args
+    _env_setup()
+    mod = importlib.import_module(modname)
+    ex = Explorer(mod.scenario(job), validate=0, probe_depth=limits["split_depth"], max_seconds=300).run()
+    if ex.errors or not ex.complete:
+        return job, None, ex.errors or ["probe not exhausted"]
+    return job, sorted(ex.prefixes), []
 
 
 def replay(modname, path):
@@ -112,11 +125,23 @@ def main(modname, tier):
     args = [(modname, j, limits) for j in jobs]
     ctxmp = mp.get_context("fork")
     results = []
+    probe_errors = []
+    if limits.get("split_depth"):
+        # split every job into sub-jobs by the values of its first few symbolic choices (exact partition)
+        with ctxmp.Pool(min(nproc, max(1, len(args)))) as pool:
+            split = pool.map(_probe_job, args, chunksize=1)
+        args = []
+        for job, prefixes, errs in split:
+            if prefixes is None:
+                probe_errors.extend(errs)
+                continue
+            for pf in prefixes:
+                args.append((modname, dict(job, _forced=list(pf)), limits))
     with ctxmp.Pool(min(nproc, max(1, len(args)))) as pool:
         for r in pool.imap_unordered(_run_job, args, chunksize=1):
             results.append(r)
     tot = Stats()
-    errors, violations, samples = [], [], []
+    errors, violations, samples = list(probe_errors), [], []
     checks = {}
     sym_vars, choice_vars = set(), set()
     paths = dead = decisions = forks = qs = qu = qk = validated = 0
@@ -170,6 +195,7 @@ def main(modname, tier):
         "(solver-decided branches and finite-domain choices); every path's model was replayed on plain "
         "values with an identical event log (traces_validated_against_impl).",
         "jobs": len(jobs),
+        "subjobs": len(args),
         "dead_paths": dead,
         "forks": forks,
         "solver_queries": {"sat": qs, "unsat": qu, "unknown": qk},
